@@ -1,6 +1,6 @@
 SPECIFICATION Spec
 CONSTANTS
- ArgSel = {1, 2, 3, 4, 5, 6, 7, 9, 10, 11}
+ ArgSel = {1, 2, 3, 4, 5, 7}
  OneSel = {1}
  MaxBatch = 2
  MaxList = 3
